@@ -1193,6 +1193,13 @@ def gen_cases(tier, seed):
                     add("s2c", fixed=("tiny", level, n, cls, kind), level=level, kind=kind, offer={}, payloads=[(cls, n), ("text", 40)])
                     if thorough:
                         add("s2c", level=level, kind=kind, offer=rng.choice(OFFERS_S2C), payloads=[(cls, n), ("text", 40)])
+    # --- s2c: an empty message that is not the first one (the deflater has nothing to do and said so before)
+    for level in (1, 2, 3):
+        for offer in ({}, {"snct": True}, {"smwb": "10"}):
+            for kind in ("t", "b"):
+                det = ("empty-later", level, sorted(offer.items()), kind)
+                add("s2c", fixed=det, level=level, kind=kind, offer=offer, payloads=[("text", 40), ("random", 0), ("text", 40)])
+                add("s2c", fixed=det, level=level, kind=kind, offer=offer, payloads=[("random", 0), ("random", 0), ("json", 300), ("random", 0)])
     # --- s2c: frame length boundaries (compressed length 125/126/127, 65535/65536)
     for level in (1, 2, 3):
         for n in range(108, 132, 1 if thorough else 2):
